@@ -1,7 +1,7 @@
 (* C16: omitted optional fields take the documented defaults (generated Default impls / serde(default) list / the
    unwrap_or literal of try_as_spdc vs the hand-pinned Spec/ConfigSpec.v). *)
 From Coq Require Import String List Bool ZArith QArith.
-From SpdVerif Require Import Base.NumOps Spec.ConfigSpec Gen.ConfigTables Model.ConfigTypes Model.Config Gen.ConfigConv.
+From SpdVerif Require Import Base.CfgNumOps Spec.ConfigSpec Gen.ConfigTables Model.ConfigTypes Model.Config Gen.ConfigConv.
 Import ListNotations.
 Local Open Scope string_scope.
 
